@@ -49,6 +49,14 @@ PROPS = {
         real=['EpollLoop + EpollFdEvent + shared per-descriptor records', 'SelectLoop + SelectFdEvent', 'base::ObjectPool (poisoned when parked)', 'kernel epoll/select on real AF_UNIX socket pairs'],
         stub=['the peer of every socket pair (driver)', 'blocking in epoll_wait/select (probe + virtual time; subset-of-ready-events and EINTR injected)'],
     ),
+    'C06': dict(
+        harness='c06_bytestream',
+        title='BufferedFd / TCP byte stream',
+        flavours=dict(asan=dict(quick_s=35, thorough_s=600)),
+        mode='single',
+        real=['network::BufferedFd', 'network::TcpConnection', 'network::TcpServer + TcpAcceptor', 'network::TcpClient + TcpConnector', 'util::Buffer', 'util::Fd', 'event loop (epoll/select)', 'kernel AF_UNIX stream sockets'],
+        stub=['the remote peer (raw descriptor driven by the plan)', 'write/read outcomes at the syscall seam (short writes/reads, EAGAIN injected)', 'monotonic clock'],
+    ),
 }
 
 NOT_APPLICABLE = {
@@ -60,4 +68,4 @@ NOT_APPLICABLE = {
 
 # planned in DESIGN.md §7 but whose harness is not built yet — not claimed until it is
 PENDING = {p: 'harness not built yet (planned in DESIGN.md §7); not claimed until the check exists' for p in
-           ['C04', 'C06', 'C09', 'C11', 'C12', 'C13', 'C14', 'C15', 'C17', 'C18', 'C20']}
+           ['C04', 'C09', 'C11', 'C12', 'C13', 'C14', 'C15', 'C17', 'C18', 'C20']}
